@@ -42,6 +42,13 @@ func PodDemand(p *corev1.Pod) Demand {
 			}
 		}
 	}
+	// Kubernetes: a pod's effective request is the sum of its containers' requests plus spec.overhead
+	if q, ok := p.Spec.Overhead[corev1.ResourceCPU]; ok {
+		d.CPUm += q.MilliValue()
+	}
+	if q, ok := p.Spec.Overhead[corev1.ResourceMemory]; ok {
+		d.MemB += q.Value()
+	}
 	if v, ok := p.Annotations["gpu-memory"]; ok {
 		if m, err := strconv.ParseInt(v, 10, 64); err == nil && m > 0 {
 			d.Shared, d.GPUMemMi, d.Devices = true, m, 1
